@@ -253,6 +253,18 @@ func (a *A) ruleKeyTuplePositional() int {
 						chain[y] = true
 						walk(cc.Args[0])
 					}
+				case *ssa.MakeSlice:
+					// a copy of the tuple that was built (stack buffer moved to the heap for keeping):
+					// make + copy(dst, src) - what is stored holds what src held
+					for _, r := range *y.Referrers() {
+						if cc, ok := r.(*ssa.Call); ok {
+							if bc, isCopy := isBuiltinCall(cc, "copy"); isCopy && bc.Args[0] == ssa.Value(y) {
+								walk(bc.Args[1])
+							}
+						}
+					}
+				case *ssa.Slice:
+					walk(y.X)
 				}
 			}
 			walk(s.val)
